@@ -207,6 +207,31 @@ def cmd_matrix(a):
     return 0
 
 
+def cmd_intake(a):
+    """copy what a sub-agent left in /tmp/seed/<ID>/out into seeded/<ID>-<i>/"""
+    src = '/tmp/seed/%s/out' % a.id
+    made = []
+    for i in (1, 2, 3):
+        patch = os.path.join(src, 'patch%d.diff' % i)
+        if not os.path.exists(patch):
+            continue
+        d = os.path.join(HERE, 'seeded', '%s-%d' % (a.id, i))
+        os.makedirs(d, exist_ok=True)
+        shutil.copy(patch, os.path.join(d, 'patch.diff'))
+        shutil.copy(os.path.join(src, 'demo%d.py' % i), os.path.join(d, 'demo.py'))
+        try:
+            meta = json.load(open(os.path.join(src, 'meta%d.json' % i)))
+        except Exception as ex:
+            meta = {'property': a.id, 'summary': 'meta unreadable: %r' % ex}
+        meta['property'] = a.id
+        meta['origin'] = 'independent sub-agent given only the property text and a scratch worktree'
+        with open(os.path.join(d, 'meta.json'), 'w') as f:
+            json.dump(meta, f, indent=1)
+        made.append(d)
+    print('\n'.join(made))
+    return 0
+
+
 def main():
     ap = argparse.ArgumentParser()
     sub = ap.add_subparsers(dest='cmd', required=True)
@@ -219,8 +244,10 @@ def main():
     d.add_argument('--seed', type=int, default=0)
     d.add_argument('--jobs', type=int, default=4)
     sub.add_parser('matrix')
+    i = sub.add_parser('intake')
+    i.add_argument('id')
     a = ap.parse_args()
-    return {'verify': cmd_verify, 'detect': cmd_detect, 'matrix': cmd_matrix}[a.cmd](a)
+    return {'intake': cmd_intake, 'verify': cmd_verify, 'detect': cmd_detect, 'matrix': cmd_matrix}[a.cmd](a)
 
 
 if __name__ == '__main__':
